@@ -72,7 +72,7 @@ _RANK = {"b": 0, "i": 1, "f": 2, "U": 3, "O": 4}
 
 
 def _promote(*kinds) -> str:
-    return max(kinds, key=lambda k: _RANK[k])
+    return builtins.max(kinds, key=lambda k: _RANK[k])
 
 
 def _np_dtype_for(kind):
@@ -328,7 +328,11 @@ class SArr:
     def __array__(self, dtype=None, copy=None):
         c = self.concrete()
         if c is None:
-            raise ShimUnsupported("symbolic array reached real numpy (unshimmed call site)")
+            # a symbolic array reached real numpy (unshimmed call site): fall back to forking every
+            # symbolic element to each feasible concrete value (sound, but degenerate); counted
+            ctx = cur()
+            ctx.notes["realized_arrays"] = ctx.notes.get("realized_arrays", 0) + 1
+            c = concretize_array(self)
         return c if dtype is None else c.astype(dtype)
 
     def __len__(self):
@@ -418,7 +422,7 @@ class SArr:
 
     def __iadd__(self, o):
         r = add(self, o)
-        self.o[...] = r.o
+        self.o[...] = _obj(r)
         return self
 
     def __sub__(self, o):
@@ -429,7 +433,7 @@ class SArr:
 
     def __isub__(self, o):
         r = subtract(self, o)
-        self.o[...] = r.o
+        self.o[...] = _obj(r)
         return self
 
     def __mul__(self, o):
@@ -528,8 +532,10 @@ class SArr:
         return target(*args, **kwargs)
 
     def __array_ufunc__(self, ufunc, method, *inputs, **kwargs):
+        if method == "__call__" and kwargs.get("out") is not None and not builtins.any(_contains_sym(i) for i in inputs):
+            return getattr(ufunc, method)(*[_real(i) for i in inputs], **kwargs)
         if method != "__call__" or kwargs.get("out") is not None:
-            raise ShimUnsupported(f"ufunc {ufunc.__name__}.{method} on a symbolic array")
+            raise ShimUnsupported(f"ufunc {ufunc.__name__}.{method} with a symbolic operand and a real output array")
         target = globals().get(ufunc.__name__)
         if target is None:
             raise ShimUnsupported(f"ufunc numpy.{ufunc.__name__} on a symbolic array is not modelled")
@@ -780,7 +786,18 @@ def _setitem(a: SArr, key, v):
 # module-level API
 # --------------------------------------------------------------------------------------
 def _anysym(*xs):
-    return builtins.any(_contains_sym(x) for x in xs)
+    """anything that must stay inside the shim: symbolic scalars or SArr (even concrete ones: SArr in -> SArr out)"""
+    return builtins.any(_contains_sarr(x) for x in xs)
+
+
+def _contains_sarr(x) -> bool:
+    if isinstance(x, SArr) or is_sym(x):
+        return True
+    if isinstance(x, (list, tuple)):
+        return builtins.any(_contains_sarr(e) for e in x)
+    if isinstance(x, _np.ndarray) and x.dtype == object:
+        return builtins.any(is_sym(e) for e in x.flat)
+    return False
 
 
 def _real(x):
@@ -1329,7 +1346,12 @@ class _Linalg:
         if not _anysym(x):
             return _np.linalg.norm(_real(x), ord=ord, axis=axis, **kw)
         if ord == 1:
-            return sum(absolute(x), axis=axis)
+            r = sum(absolute(x), axis=axis)
+            if not isinstance(r, SArr):  # numpy returns a 0-d float scalar with array methods
+                o = _np.empty((), dtype=object)
+                o[()] = r
+                r = SArr(o, "i")
+            return r
         # euclidean norm of a symbolic integer vector: return a lazy value that supports the
         # comparisons the repository uses (== 1, <= 1.1, >= d) via the squared integer form
         sq = sum(multiply(x, x), axis=axis)
